@@ -21,6 +21,33 @@ def dset {β : Type} : List (Name × β) → Name → β → List (Name × β)
   | [], k, v => [(k, v)]
   | (k', v') :: r, k, v => if k' == k then (k, v) :: r else (k', v') :: dset r k v
 
+/-- `del d[k]` (every occurrence; keys are unique in every reachable list) -/
+def ddel {β : Type} : List (Name × β) → Name → List (Name × β)
+  | [], _ => []
+  | (k', v') :: r, k => if k' == k then ddel r k else (k', v') :: ddel r k
+
+/-- what the minimiser accepts as a limit: iminuit raises `ValueError` for an interval with lower > upper -/
+class LimitOK (L : Type) where
+  valid : L → Bool
+
+/-- iminuit `LimitView.__setitem__`: the old limit of the parameter is REMOVED first, then the new interval is
+    validated and stored; an invalid one raises with the limit gone -/
+def mSetLimit {L : Type} [LimitOK L] (ml : List (Name × L)) (k : Name) (v : L) : List (Name × L) × Bool :=
+  if LimitOK.valid v then (dset ml k v, true) else (ddel ml k, false)
+
+/-- `for k, v in dct.items(): self.minuit.limits[k] = v` — stops at the first rejected interval -/
+def mSetLimits {L : Type} [LimitOK L] : List (Name × L) → List (Name × L) → List (Name × L) × Bool
+  | ml, [] => (ml, true)
+  | ml, (k, v) :: r =>
+    if LimitOK.valid v then mSetLimits (dset ml k v) r else (ddel ml k, false)
+
+/-- `for k, v in old.items(): self.minuit.limits[k] = v` with `old = {k: minuit.limits[k] for k in dct}`
+    (an unlimited parameter reads as (-inf, inf): setting that removes the limit) -/
+def restoreLimits {L : Type} (ml : List (Name × L)) (old : List (Name × Option L)) : List (Name × L) :=
+  old.foldl (fun m kv => match kv.2 with
+    | some v => dset m kv.1 v
+    | none => ddel m kv.1) ml
+
 structure St (L V : Type) where
   names : List Name                 -- theory.parameters.keys()
   tvals : List (Name × V)           -- theory.parameters
@@ -64,7 +91,7 @@ def tFree {L V : Type} (s : St L V) : List Name :=
 def mFree {L V : Type} (s : St L V) : List Name :=
   s.names.filter fun p => !((dget s.mfixed p).getD false)
 
-def step {L V : Type} (s : St L V) : Op L V → St L V × Out
+def step {L V : Type} [LimitOK L] (s : St L V) : Op L V → St L V × Out
   | .fix [] => (s, .indexError)                        -- args[0]
   | .fix (a :: as) =>
     if a == "ALL" then
@@ -77,24 +104,40 @@ def step {L V : Type} (s : St L V) : Op L V → St L V × Out
       ({ s with tfixed := setAll s.tfixed args false, mfixed := setAll s.mfixed args false }, .ok)
     else (s, .valueError)
   | .limit d =>
+    -- names are checked first; then the minimiser is given the limits (it validates them), its previous limits
+    -- are put back if one is rejected, and only then the theory is updated  (fitter.py after fix 5821560)
     if d.all (fun kv => s.names.contains kv.1) then
-      ({ s with tlimits := updateAll s.tlimits d, mlimits := updateAll s.mlimits d }, .ok)
+      let old := d.map fun kv => (kv.1, dget s.mlimits kv.1)
+      match mSetLimits s.mlimits d with
+      | (ml', true) => ({ s with tlimits := updateAll s.tlimits d, mlimits := ml' }, .ok)
+      | (ml', false) => ({ s with mlimits := restoreLimits ml' old }, .valueError)
     else (s, .valueError)
   | .free => (s, .freeLists (tFree s) (mFree s))
   | .fit result => ({ s with mvals := result, tvals := updateAll s.tvals result }, .ok)
 
-def run {L V : Type} (s : St L V) (ops : List (Op L V)) : St L V := ops.foldl (fun s o => (step s o).1) s
+def run {L V : Type} [LimitOK L] (s : St L V) (ops : List (Op L V)) : St L V := ops.foldl (fun s o => (step s o).1) s
 
 /-- the code before the repair: names are checked one by one while mutating, minuit only afterwards -/
 def setUntilUnknown (names : List Name) (d : List (Name × Bool)) (v : Bool) : List Name → List (Name × Bool) × Bool
   | [] => (d, true)
   | a :: as => if names.contains a then setUntilUnknown names (dset d a v) v as else (d, false)
 
-def stepOld {L V : Type} (s : St L V) : Op L V → St L V × Out
+def stepOld {L V : Type} [LimitOK L] (s : St L V) : Op L V → St L V × Out
   | .release args =>
     let (tf, ok) := setUntilUnknown s.names s.tfixed false args
     if ok then ({ s with tfixed := tf, mfixed := setAll s.mfixed args false }, .ok)
     else ({ s with tfixed := tf }, .valueError)
+  | o => step s o
+
+/-- `limit_parameters` before fix 5821560: the theory is updated first, the minimiser afterwards and without
+    putting anything back when it rejects an interval -/
+def stepOldLimit {L V : Type} [LimitOK L] (s : St L V) : Op L V → St L V × Out
+  | .limit d =>
+    if d.all (fun kv => s.names.contains kv.1) then
+      match mSetLimits s.mlimits d with
+      | (ml', true) => ({ s with tlimits := updateAll s.tlimits d, mlimits := ml' }, .ok)
+      | (ml', false) => ({ s with tlimits := updateAll s.tlimits d, mlimits := ml' }, .valueError)
+    else (s, .valueError)
   | o => step s o
 
 /-! ### covsync: errors for every parameter, covariance for exactly the free ones, looked up BY NAME -/
